@@ -113,3 +113,26 @@ def open_close_controlpoints(case, params):
         return False
     b = o['bases'][case['direction']]
     return b['periodic'] >= 1
+
+
+def _both(case):
+    out = []
+    for key in ('obj', 'other'):
+        o = case.get(key)
+        if o:
+            out += o['bases']
+    return out
+
+
+def identical_jump_knot(case, params):
+    """make_splines_identical needs raise_order on an operand with an interior knot of multiplicity >= order:
+    singular Greville collocation (see C05-jump-knot)"""
+    if not any(w in case.get('what', '') for w in ('LinAlgError', 'non-finite')):
+        return False
+    return any(_dir_flags(b)['jump'] for b in _both(case))
+
+
+def identical_periodic_small(case, params):
+    """make_splines_identical on an operand with a periodic direction of fewer than order+continuity functions
+    (insertion / lower_periodic are not defined there, see C04-periodic-small)"""
+    return any(b['periodic'] >= 0 and _nfun(b) < b['order'] + b['periodic'] for b in _both(case))
